@@ -9,21 +9,6 @@ C(name) == [dev |-> FALSE, name |-> name]
 D(name) == [dev |-> TRUE, name |-> name]
 PREC == <<"not", "and", "or">>
 
-\* the mechanism's meaning (prefix renaming), for the recorded deviation only
-RECURSIVE MechDoc(_, _, _)
-MechDoc(doc, fdocs, k) ==
-    IF k > Len(fdocs) THEN doc
-    ELSE LET prefix == <<95,102,105,108,116,95,112>> \o NatText(k)         \* _filt_p<k>
-             f == fdocs[k]
-         IN  MechDoc([dets |-> doc.dets \o [j \in 1..Len(f.dets) |-> [f.dets[j] EXCEPT !.name = prefix \o <<CH_US>> \o @]],
-                      conds |-> [c \in 1..Len(doc.conds) |-> CombinedCond(doc.conds[c], f.conds[1], prefix)]],
-                     fdocs, k + 1)
-UsName(fdoc) == \E j \in 1..Len(fdoc.dets) : fdoc.dets[j].name[1] = CH_US
-\* second recorded deviation of the same mechanism, seen from the rule's side: a selector pattern of the RULE
-\* that starts with an underscore (the way to select the rule's own underscore names) also matches the filter's
-\* detections, which live in the rule under names starting with '_filt_'
-UsPattern(cond) == IsSubstr(<<32, CH_US>>, cond) /\ IsSubstr(<<111,102,32,CH_US>>, cond)      \* "of _"
-
 \* the pipeline of the cases with pipe = TRUE appends _x to every field name
 RECURSIVE SufQ(_, _)
 SufQ(e, suf) == CASE e.k = "leaf" -> [e EXCEPT !.a.f = IF @ = <<>> THEN @ ELSE @ \o suf]
